@@ -4,8 +4,10 @@ import (
 	"bytes"
 	"encoding/hex"
 	"encoding/json"
+	"errors"
 	"fmt"
 	"reflect"
+	"strings"
 
 	"github.com/cloudwego/gopkg/protocol/thrift"
 	"github.com/cloudwego/gopkg/protocol/thrift/base"
@@ -79,6 +81,14 @@ func c11Codec(v c11Val) thrift.FastCodec {
 			return (*base.BaseResp)(nil)
 		}
 		return &base.BaseResp{StatusMessage: v.S[0], StatusCode: v.I, Extra: v.extra()}
+	}
+	switch v.Kind {
+	case "protocol-exception":
+		return thrift.NewProtocolException(v.I, v.S[0])
+	case "transport-exception":
+		return thrift.NewTransportException(v.I, v.S[0])
+	case "protocol-exception-with-cause": // what the stream reader returns for a failing source; type id 0 (unknown)
+		return thrift.NewProtocolExceptionWithErr(errors.New(v.S[0]))
 	}
 	return thrift.NewApplicationException(v.I, v.S[0])
 }
@@ -339,8 +349,10 @@ func c11Run(c *mc.Ctx) {
 	ints := []int32{0, 1, -1, -2147483648, 2147483647, 0x01020304}
 	extras := []c11Val{{}, {HasMap: true}, {HasMap: true, Extra: map[string]string{"k": "v"}}, {HasMap: true, Extra: map[string]string{"k1": "v1", "k2": string(nonUTF8S)}}, {HasMap: true, Extra: map[string]string{"": ""}}}
 	// ---- write side ----
-	for _, kind := range []string{"base", "baseresp", "exception"} {
-		c11Write(c, c11Val{Kind: kind, Nil: kind != "exception"})
+	for _, kind := range []string{"base", "baseresp", "exception", "protocol-exception", "transport-exception", "protocol-exception-with-cause"} {
+		if kind == "base" || kind == "baseresp" {
+			c11Write(c, c11Val{Kind: kind, Nil: true})
+		}
 		for _, s0 := range strs {
 			for _, s1 := range strs {
 				for _, s2 := range strs {
@@ -352,7 +364,7 @@ func c11Run(c *mc.Ctx) {
 							if kind == "base" && i != 0 {
 								continue
 							}
-							if kind == "exception" && e.HasMap {
+							if strings.Contains(kind, "exception") && (e.HasMap || (kind == "protocol-exception-with-cause" && i != 0)) {
 								continue
 							}
 							if !c.Mine() {
